@@ -194,6 +194,9 @@ func genCMSpec(tier string, rng *RNG, emit func(Case)) {
 			emit(Case{Op: "gen", Args: []string{"1", "1"}})
 		}
 	}
+	for i := range cmspecFixed {
+		emit(Case{Op: "fixed", Args: []string{strconv.Itoa(i)}})
+	}
 	exs := SpecExamples()
 	for i := range exs {
 		for r := 0; r < len(cmspecRewrites); r++ {
@@ -214,8 +217,36 @@ func tagSeq(h []byte, max int) string {
 	return sb.String()
 }
 
+// cmspecFixed: documents with the HTML the specification prescribes, derived BY HAND from the CommonMark 0.31.2 text
+// (4.7 link reference definitions: the title must be followed by the end of the line - example 210; otherwise the
+// definition ends after the destination and has no title - example 211; a definition cannot interrupt a paragraph -
+// example 213; what follows is paragraph text). Regression inputs of /repo fix 0539a73, with uses of the definitions
+// so that title and destination become visible.
+var cmspecFixed = [][2]string{
+	{"[foo]: /url\n\"title\" ok\n\n[foo]\n", "<p>&quot;title&quot; ok</p>\n<p><a href=\"/url\">foo</a></p>\n"},
+	{"[foo]:\n/url\n\"title\" ok\n\n[foo]\n", "<p>&quot;title&quot; ok</p>\n<p><a href=\"/url\">foo</a></p>\n"},
+	{"[foo]: /url\n\"title\" [b]: /x\n\n[foo] [b]\n", "<p>&quot;title&quot; [b]: /x</p>\n<p><a href=\"/url\">foo</a> [b]</p>\n"},
+	{"[foo]:\n/url\n\"title\" [b]: /x\n\n[foo] [b]\n", "<p>&quot;title&quot; [b]: /x</p>\n<p><a href=\"/url\">foo</a> [b]</p>\n"},
+	{"[foo]:\n/url\n\"t\" [b]: /x\n[c]: /y\n\n[foo] [b] [c]\n", "<p>&quot;t&quot; [b]: /x\n[c]: /y</p>\n<p><a href=\"/url\">foo</a> [b] [c]</p>\n"},
+	{"[foo]: /url\n\"unclosed\n[b]: /x\n\n[foo] [b]\n", "<p>&quot;unclosed\n[b]: /x</p>\n<p><a href=\"/url\">foo</a> [b]</p>\n"},
+	{"[foo]: /url\n\"title\"\n[b]: /x\n\n[foo] [b]\n", "<p><a href=\"/url\" title=\"title\">foo</a> <a href=\"/x\">b</a></p>\n"},
+	{"[foo]: /url \"title\" ok\n\n[foo]\n", "<p>[foo]: /url &quot;title&quot; ok</p>\n<p>[foo]</p>\n"},
+	{"[foo]: /url\n'title' ok\n\n![foo]\n", "<p>'title' ok</p>\n<p><img src=\"/url\" alt=\"foo\" /></p>\n"},
+	{"> [foo]: /url\n> (title) ok\n\n[foo]\n", "<blockquote>\n<p>(title) ok</p>\n</blockquote>\n<p><a href=\"/url\">foo</a></p>\n"},
+}
+
 func implCMSpec(c Case) ImplResult {
 	switch c.Op {
+	case "fixed":
+		i, _ := strconv.Atoi(c.Args[0])
+		src, want := []byte(cmspecFixed[i][0]), []byte(cmspecFixed[i][1])
+		got := cmspecConvert(src)
+		res := ImplResult{Out: "ok", NoModel: true, Key: "fixed|" + c.Args[0]}
+		if !bytes.Equal(cmspecNorm(got), cmspecNorm(want)) {
+			res.Fails = append(res.Fails, OracleFail{Property: "C02", Clause: "constructed-document-differs",
+				Detail: fmt.Sprintf("hand-derived case %d %q: goldmark %q, CommonMark prescribes %q", i, src, got, want)})
+		}
+		return res
 	case "gen", "enum":
 		line := c.Line("cmspec")
 		cmspecMu.Lock()
